@@ -114,6 +114,10 @@ type Knobs struct {
 	// Strategy: 0 uniform, 1 run-to-completion with random preemption, 2 PCT-like priorities
 	Strategy   int `json:"strategy"`
 	PreemptPct int `json:"preempt_pct"`
+	// Burst (race sweep): every client that can send does so in the same step, so
+	// that the connection handlers really run in parallel (real sync primitives,
+	// -race build); the cooperative scheduler has nothing to schedule then.
+	Burst bool `json:"burst,omitempty"`
 	// Preload is executed sequentially before the clients start (prior keyspace).
 	Preload [][]B `json:"preload,omitempty"`
 }
@@ -625,6 +629,20 @@ func (w *World) loop(maxSteps int) {
 			}
 			w.res.Stuck = w.describeStuck()
 			return
+		}
+		if w.sc.Knobs.Burst {
+			// all sends of this round at once, then one quiescence
+			sent := false
+			for _, e := range evs {
+				if e.kind == "send" || e.kind == "deliver" {
+					w.res.Steps++
+					w.apply(e)
+					sent = true
+				}
+			}
+			if sent {
+				continue
+			}
 		}
 		e := w.choose(evs)
 		w.res.Steps++
